@@ -3,6 +3,7 @@ import CalmVerif.Props.C12
 import CalmVerif.Props.C12parse
 import CalmVerif.Props.C12act
 import CalmVerif.Props.C12term
+import CalmVerif.Props.C12pos
 open CalmVerif.Props.C12
 #print axioms lexer_terminates
 #print axioms token_terminates
@@ -79,3 +80,41 @@ open CalmVerif.Props.C12lex
 #check @CalmVerif.Props.C12all.parse_total
 #print axioms CalmVerif.Props.C12all.parse_no_recovery
 #check @CalmVerif.Props.C12all.parse_no_recovery
+#print axioms CalmVerif.Props.C12pos.raiseSyntaxError_message
+#check @CalmVerif.Props.C12pos.raiseSyntaxError_message
+#print axioms CalmVerif.Props.C12pos.raiseSyntaxError_lexer_error
+#check @CalmVerif.Props.C12pos.raiseSyntaxError_lexer_error
+#print axioms CalmVerif.Props.C12pos.auto_offending_not_shown
+#check @CalmVerif.Props.C12pos.auto_offending_not_shown
+#print axioms CalmVerif.Props.C12pos.raise_tokens_realAt
+#check @CalmVerif.Props.C12pos.raise_tokens_realAt
+#print axioms CalmVerif.Props.C12pos.pErrorCall_step
+#check @CalmVerif.Props.C12pos.pErrorCall_step
+#print axioms CalmVerif.Props.C12pos.syntax_error_tokens_located_partial
+#check @CalmVerif.Props.C12pos.syntax_error_tokens_located_partial
+#print axioms CalmVerif.Props.C12pos.syntax_error_message_at_call
+#check @CalmVerif.Props.C12pos.syntax_error_message_at_call
+#print axioms CalmVerif.Props.C12pos.run_syntax_error_located_partial
+#check @CalmVerif.Props.C12pos.run_syntax_error_located_partial
+#print axioms CalmVerif.Props.C12pos.parse_syntax_error_located_partial
+#check @CalmVerif.Props.C12pos.parse_syntax_error_located_partial
+#print axioms CalmVerif.Props.C12pos.next_token_may_be_inserted
+#check @CalmVerif.Props.C12pos.next_token_may_be_inserted
+#print axioms CalmVerif.Props.C12pos.full_claim_false
+#check @CalmVerif.Props.C12pos.full_claim_false
+#print axioms CalmVerif.Props.C12pos.quotedAt_spec
+#check @CalmVerif.Props.C12pos.quotedAt_spec
+#print axioms CalmVerif.Props.C12pos.offending_token_located
+#check @CalmVerif.Props.C12pos.offending_token_located
+#print axioms CalmVerif.Props.C12pos.parse_offending_token_located
+#check @CalmVerif.Props.C12pos.parse_offending_token_located
+#print axioms CalmVerif.Props.C12pos.run_syntax_error_call
+#check @CalmVerif.Props.C12pos.run_syntax_error_call
+#print axioms CalmVerif.Props.C12pos.unexpected_is_offending
+#check @CalmVerif.Props.C12pos.unexpected_is_offending
+#print axioms CalmVerif.Props.C12pos.messageOf_unexpected
+#check @CalmVerif.Props.C12pos.messageOf_unexpected
+#print axioms CalmVerif.Props.C12pos.unexpected_may_be_next_token
+#check @CalmVerif.Props.C12pos.unexpected_may_be_next_token
+#print axioms CalmVerif.Props.C12pos.raise_state_ok
+#check @CalmVerif.Props.C12pos.raise_state_ok
